@@ -102,26 +102,67 @@ def summarise(ex, env):
 
 
 def predict(cfg, r):
-    """What the request gets when served alone, PREDICTED from the application's source for the kinds where that is a
-    one-liner (measuring it on the shared application would inherit whatever an earlier request did to that application).
-    -> (status, body | None, Allow | None) or None"""
-    tok = ('tok-%d' % r['id']) if cfg.get('tok', True) else None
-    nm = r['target'].split('?')[0].rsplit('/', 1)[-1]
+    """What the request gets when served alone, PREDICTED from the application's source (sim/worlds/threads_app.py)
+    instead of measured on the shared application -- a measurement would inherit whatever an earlier request did to that
+    application.  -> (status, body | None, Allow | None, Location | None); None = that part is not predicted."""
+    i = r['id']
+    tok = ('tok-%d' % i) if cfg.get('tok', True) else None
+    eptok = ('eptok-%d' % i) if cfg.get('eptok', True) else None
+    path = r['target'].split('?')[0]
+    segs = [x for x in path.split('/') if x]
+    nm = segs[-1] if segs else ''
+    mode = cfg.get('slash', 'redirect')
     k = r['kind']
+    if k == 'hi':
+        return (200, 'hi|%s|%s|%s|%d' % (nm, tok, eptok, i), None, None)
+    if k == 'head':
+        return (200, '', None, None)
+    if k == 'ctx':
+        ctx = {'n': int(segs[1]), 'rest': segs[2:], 'tok': tok, 'id': str(i)}
+        rtok = None
+        if cfg.get('rendermw', True):
+            ctx['seen_by_render_mw'] = str(i)
+            rtok = 'rtok-%d' % i
+        items = sorted((kk, repr(v)) for kk, v in ctx.items())
+        return (200, 'ctx|' + '|'.join('%s=%s' % kv for kv in items) + '|rtok=%s|%d' % (rtok, i), None, None)
+    if k == 'fallA':
+        return (200, 'fallA|%s|%s|%d' % (nm, tok, i), None, None)
+    if k == 'fallB':
+        return (200, 'fallB|%s|%s|%d' % (nm, tok, i), None, None)
+    if k == 'fallNone':
+        return (403, None, None, None)
     if k in ('item_get', 'item_head'):
-        return (200, '' if k == 'item_head' else 'iget|%s|%s|%d' % (nm, tok, r['id']), None)
+        return (200, '' if k == 'item_head' else 'iget|%s|%s|%d' % (nm, tok, i), None, None)
     if k == 'item_post':
-        return (200, 'ipost|%s|%s|%d' % (nm, tok, r['id']), None)
+        return (200, 'ipost|%s|%s|%d' % (nm, tok, i), None, None)
     if k == 'item_put':
-        return (200, 'iput|%s|%s|%d' % (nm, tok, r['id']), None)
+        return (200, 'iput|%s|%s|%d' % (nm, tok, i), None, None)
     if k == 'item_del':
-        return (405, None, 'GET,HEAD,POST,PUT')
+        return (405, None, 'GET,HEAD,POST,PUT', None)
     if k == 'post':
-        return (200, 'post|%s|%d|body-%d' % (tok, r['id'], r['id']), None)
+        return (200, 'post|%s|%d|body-%d' % (tok, i, i), None, None)
     if k == 'm405':
-        return (405, None, 'POST')
+        return (405, None, 'POST', None)
     if k == 'missing':
-        return (404, None, None)
+        return (404, None, None, None)
+    if k in ('boom', 'nonresp'):
+        return (500, None, None, None)
+    if k == 'ret409':
+        return (409, None, None, None)
+    if k == 'raise403':
+        return (403, None, None, None)
+    if k == 'dir':
+        return (200, 'dir|%s|%d' % (tok, i), None, None)
+    if k == 'redir':
+        return {'redirect': (302, None, None, 'http://sim.test/dir/?id=%d' % i), 'rewrite': (200, 'dir|%s|%d' % (tok, i), None, None),
+                'strict': (404, None, None, None)}[mode]
+    if k == 'br':
+        return (200, 'br|%s|%s|%d' % (nm, tok, i), None, None)
+    if k == 'brredir':
+        return {'redirect': (302, None, None, 'http://sim.test/br/%s/?id=%d' % (nm, i)), 'rewrite': (200, 'br|%s|%s|%d' % (nm, tok, i), None, None),
+                'strict': (404, None, None, None)}[mode]
+    if k == 'sub':
+        return (200, 'sub|%s|subres|subres-%d|%s|%d' % (nm, i, tok, i), None, None)
     return None
 
 
@@ -407,10 +448,11 @@ class C12(Check):
                 if p is None or s['escaped']:
                     continue
                 res.probe('predicted-response-compared')
-                if s['code'] != p[0] or (p[1] is not None and s['body'] != p[1]) or (p[2] is not None and s['headers'].get('allow') != p[2]):
+                if (s['code'] != p[0] or (p[1] is not None and s['body'] != p[1]) or (p[2] is not None and s['headers'].get('allow') != p[2])
+                        or (p[3] is not None and s['headers'].get('location') != p[3])):
                     res.violate('C12/%s/differs-from-source-prediction:%s' % (r['kind'], what),
-                                '%s (%s %s) served %s: status %s body %r Allow %r; the application source says %r\n history: %s'
-                                % (name, r['method'], r['target'], what, s['code'], s['body'][:80], s['headers'].get('allow'), p,
+                                '%s (%s %s) served %s: status %s body %r Allow %r Location %r; the application source says %r\n history: %s'
+                                % (name, r['method'], r['target'], what, s['code'], s['body'][:80], s['headers'].get('allow'), s['headers'].get('location'), p,
                                    [(x['name'], x['method'], x['target']) for x in reqs]))
                     break
             if comparable(g) != comparable(e):
